@@ -19,6 +19,7 @@ from fractions import Fraction
 import numpy as np
 
 ROOT = os.path.dirname(os.path.dirname(os.path.abspath(__file__)))
+OUT = os.environ.get("VERIF_OUT", ROOT)
 PLAIN = re.compile(r"-?[0-9]+(\.[0-9]+)?")
 
 
@@ -87,8 +88,8 @@ def float_to_str_contract(prop, tier, seed):
     }], "violations": []}
     if failures:
         relevant = [f for f in failures if (prop == "C03") == (f["clause"].startswith("not plain"))] or failures
-        os.makedirs(os.path.join(ROOT, "replays"), exist_ok=True)
-        path = os.path.join(ROOT, "replays", "%s-bounded-float_to_str.json" % prop)
+        os.makedirs(os.path.join(OUT, "replays"), exist_ok=True)
+        path = os.path.join(OUT, "replays", "%s-bounded-float_to_str.json" % prop)
         with open(path, "w") as fh:
             json.dump({"property": prop, "obligation": "%s/commonroad.common.writer.file_writer_xml.float_to_str/assumed contract holds on real floats (bounded)" % prop,
                        "kind": "bounded run-time contract evaluation", "failing_inputs": relevant,
@@ -220,8 +221,8 @@ def enclosure_contract(prop, tier, seed):
         if key in known:
             res["known"].append("%s [C04/bounded/enclosure, %s]" % (known[key]["text"], key))
             continue
-        os.makedirs(os.path.join(ROOT, "replays"), exist_ok=True)
-        path = os.path.join(ROOT, "replays", "%s-bounded-enclosure-%s.json" % (prop, re.sub(r"[^A-Za-z0-9]+", "_", key)))
+        os.makedirs(os.path.join(OUT, "replays"), exist_ok=True)
+        path = os.path.join(OUT, "replays", "%s-bounded-enclosure-%s.json" % (prop, re.sub(r"[^A-Za-z0-9]+", "_", key)))
         with open(path, "w") as fh:
             json.dump({"property": prop, "obligation": "C04/bounded/enclosure (%s)" % key, "kind": "bounded run-time contract evaluation", "failing_inputs": fl,
                        "replay": "occupancy_shape_from_state(shape, CustomState(time_step=0, position=<region>, orientation=<orientation>)); place the shape at the admissible "
@@ -417,8 +418,8 @@ def spatial_contract(prop, tier, seed):
         if key in known:
             res["known"].append("%s [C06/bounded/spatial, %s]" % (known[key]["text"], key))
             continue
-        os.makedirs(os.path.join(ROOT, "replays"), exist_ok=True)
-        path = os.path.join(ROOT, "replays", "%s-bounded-spatial-%s.json" % (prop, re.sub(r"[^A-Za-z0-9]+", "_", key)))
+        os.makedirs(os.path.join(OUT, "replays"), exist_ok=True)
+        path = os.path.join(OUT, "replays", "%s-bounded-spatial-%s.json" % (prop, re.sub(r"[^A-Za-z0-9]+", "_", key)))
         with open(path, "w") as fh:
             json.dump({"property": prop, "obligation": "C06/bounded/spatial (%s)" % key, "kind": "bounded run-time contract evaluation", "failing_inputs": fl,
                        "replay": "build the lanelets from the listed rings (right boundary + reversed left boundary) and repeat the query"}, fh, indent=1, default=str)
